@@ -75,26 +75,42 @@ def unravel : List Nat → Nat → List Nat
 def prodL (l : List Nat) : Nat := l.foldl (· * ·) 1
 
 section nd
-variable {K : Type} [Num K] [Inhabited K]
+variable {K : Type} [Num K]
 
-/-- `bindown(x, f, mode)` on a flat row-major array of shape `shape` (each `f` divides its axis) -/
+/-- total of an N-D array given as a function of its multi-index (`shape` = list of axis lengths) -/
+def totL : List Nat → (List Nat → K) → K
+  | [], x => x []
+  | s :: ss, x => Num.sumTo s fun a => totL ss fun t => x (a :: t)
+
+/-- `bindown(x, f, 'sum')` at output multi-index `i`: the sum over the block offsets `j < f` on every axis of the
+source samples `i·f + j` -/
+def binL : List Nat → (List Nat → K) → List Nat → K
+  | [], x, _ => x []
+  | f :: fs, x, i => Num.sumTo f fun j => binL fs (fun t => x (binSrc f (i.headD 0) j :: t)) i.tail
+
+/-- the output multi-index that a tiled sample `k` is copied from: `k / f` on every axis -/
+def tileIdx (f k : List Nat) : List Nat := List.zipWith tileSrc f k
+
+/-- `tile(y, f, 'avg')` at multi-index `k` -/
+def tileL (f : List Nat) (y : List Nat → K) : List Nat → K := fun k => y (tileIdx f k)
+
+variable [Inhabited K]
+
+/-- `bindown(x, f, mode)` on a flat row-major array of shape `shape` (each `f` divides its axis): `binL` read through
+the row-major index maps -/
 def binND (shape f : List Nat) (x : Array K) (avg : Bool) : Array K :=
   let oshape := List.zipWith (· / ·) shape f
   let nb := prodL f
   Array.ofFn (n := prodL oshape) fun t =>
-    let i := unravel oshape t.val
-    let tot := Num.sumTo nb fun b =>
-      let j := unravel f b
-      x[ravel shape (List.zipWith (fun (fa : Nat) (ij : Nat × Nat) => binSrc fa ij.1 ij.2) f (List.zip i j))]!
+    let tot := binL f (fun k => x[ravel shape k]!) (unravel oshape t.val)
     if avg then tot / Num.ofInt (nb : Int) else tot
 
-/-- `tile(y, f, scaling)` on a flat row-major array of shape `oshape` -/
+/-- `tile(y, f, scaling)` on a flat row-major array of shape `oshape`: `tileL` read through the row-major index maps -/
 def tileND (oshape f : List Nat) (y : Array K) (sumScaling : Bool) : Array K :=
   let shape := List.zipWith (· * ·) oshape f
   let sf : K := Num.ofInt 1 / Num.ofInt (prodL f : Int)
   Array.ofFn (n := prodL shape) fun t =>
-    let k := unravel shape t.val
-    let v := y[ravel oshape (List.zipWith tileSrc f k)]!
+    let v := tileL f (fun i => y[ravel oshape i]!) (unravel shape t.val)
     if sumScaling then v * sf else v
 
 end nd
@@ -113,6 +129,9 @@ inductive Cfa | rggb | bggr
 inductive Src | img | gest | c1 | c2 | c3
   deriving DecidableEq, Repr, Inhabited
 inductive Gain | wr | wg1 | wg2 | wb
+  deriving DecidableEq, Repr, Inhabited
+/-- the three gains of `wb_postscale` -/
+inductive Gain3 | wr | wg | wb
   deriving DecidableEq, Repr, Inhabited
 
 /-- `slice(start, None, step)` -/
@@ -149,6 +168,10 @@ def recompPlane : Cfa → Site → Plane
 def prescaleGain : Cfa → Site → Gain
   | .rggb, .tl => .wr | .rggb, .tr => .wg1 | .rggb, .bl => .wg2 | .rggb, .br => .wb
   | .bggr, .tl => .wb | .bggr, .tr => .wg1 | .bggr, .bl => .wg2 | .bggr, .br => .wr
+
+/-- white-balance gain applied to each channel of a demosaicked image (`wb_postscale`) -/
+def postscaleGain : Chan → Gain3
+  | .red => .wr | .green => .wg | .blue => .wb
 
 def Plane.gain : Plane → Gain
   | .r => .wr | .g1 => .wg1 | .g2 => .wg2 | .b => .wb
